@@ -149,7 +149,10 @@ pub fn actual(p: usize, s: &str) -> Result<Value, TemporalError> {
         P_TIME => Value::Time { ns: time_ns(&PlainTime::from_str(s)?) },
         P_YM => {
             let d = PlainYearMonth::from_str(s)?;
-            Value::YearMonth { y: d.iso_year() as i64, m: d.iso_month(), cal: d.calendar().identifier().to_string() }
+            // the hidden reference day shows in the print with the calendar annotation (`2021-05-01[u-ca=iso8601]`)
+            let shown = d.to_ixdtf_string(temporal_rs::options::DisplayCalendar::Always);
+            let ref_day = shown.split('[').next().and_then(|x| x.rsplit('-').next()).and_then(|x| x.parse::<u8>().ok()).unwrap_or(0);
+            Value::YearMonth { y: d.iso_year() as i64, m: d.iso_month(), ref_day, cal: d.calendar().identifier().to_string() }
         }
         P_MD => {
             let d = PlainMonthDay::from_str(s)?;
